@@ -8,7 +8,7 @@
 (*                admissible spelling of m, and rejects texts that fit no  *)
 (*                legal move or more than one.                             *)
 (***************************************************************************)
-EXTENDS Text, Json, IOUtils
+EXTENDS San, Json, IOUtils
 
 Rec  == ndJsonDeserialize(IOEnv.TRACE)
 PROP == IOEnv.PROP
